@@ -135,7 +135,9 @@ def list_unop(op, a, t=None):
     if isinstance(a, t_seq):
         if any(isinstance(i, t_seq) for i in a):
             return t(list_unop(op, i, type(i)) for i in a)
-        return t(op(i) for i in a)
+        return t(list_unop(op, i) for i in a)
+    elif hasattr(a, '_compose_unop'):
+        return a._compose_unop(op)  # E.g. operator.not_ has no dunder method.
     else:
         return op(a)
 
